@@ -160,8 +160,8 @@ def inv_clauses(sh, simple: bool = False) -> List[Tuple[str, z3.ExprRef, Tuple[s
     cl.append(("I3g.group-ids-bounded", z3.ForAll([g, i], z3.Implies(z3.And(p.G.has(g), p.Gids(g, i)), z3.And(0 <= i, i < p.n))), ("C10", "C11")))
     cl.append(("I4.count", p.R.card + p.C.card + p.E.card + p.forgotten == p.n, ("C03",)))
     cl.append(("I5.capacity", z3.And(z3.Implies(z3.Not(p.size.inf), z3.And(z3.Not(v.inf), v.k + p.sem.g + p.sem.out == p.size.k)),
-                                     z3.Implies(p.size.inf, z3.And(v.inf, p.sem.P == 0, p.sem.g == 0))), ("C01",)))
-    cl.append(("I6.tokens", p.sem.out == p.R.card + p.C.card, ("C02", "C01")))
+                                     z3.Implies(p.size.inf, z3.And(v.inf, p.sem.P == 0, p.sem.g == 0))), ("C01", "C15")))
+    cl.append(("I6.tokens", p.sem.out == p.R.card + p.C.card, ("C02", "C01", "C15")))
     rt, ct, et = p.Rv(i), p.Cv(i), p.Ev(i)
     tr = sym_truthy()
     cl.append(("I6r.running", z3.ForAll([i], z3.Implies(p.R.has(i), z3.And(rt != NONE, sel(tr, rt), sel(kind, rt) == K_WRAPPER, sel(tid, rt) == i, sel(tok, rt),
